@@ -223,7 +223,20 @@ class StmtsMixin:
             vals = [self.ev(st, r) for r in rs]
             if len(vals) == 1 and isinstance(vals[0], TupleV):
                 vals = vals[0].vals
+            rts = self.rtype_stack[-1] if getattr(self, 'rtype_stack', None) else None
+            if rts and len(rts) == len(vals):
+                vals = [self.conv_result(st, v, r, t) for v, r, t in zip(vals, rs if len(rs) == len(vals) else [None] * len(vals), rts)]
         raise ReturnEx([copyval(v) for v in vals])
+
+    def conv_result(self, st, v, node, tid):
+        """implicit conversion of a returned operand to the declared result type (nil, boxing into interfaces)"""
+        if tid is None: return v
+        k = self.tt.kind(tid)
+        if isinstance(v, IfaceV) and k not in ('iface', 'typeparam') and node is not None and (node.get('isNil') or node.get('Name') == 'nil'):
+            return self.lay.zero(tid)
+        if k == 'iface' and not isinstance(v, IfaceV):
+            return self.box(st, v, node.get('t') if node else None)
+        return v
 
     def st_BranchStmt(self, st, s):
         lab = s['Label']['Name'] if s.get('Label') else None
